@@ -33,8 +33,8 @@ CHECKS.update({
 })
 
 CHECKS["C20"] = ("flight", "exploration",
-    "deterministic simulation of concurrent callers (single-threaded paused-clock runtime with seeded yields/sleeps at guarded points between lock sections, and a multi-threaded mode under a cooperative thread scheduler with lock-aware schedule points); history oracle over invoke/return events",
-    "Real singleflight Group; callers, arrival times, task durations, task outcomes (value/error/panic) and the scheduling decisions at five guarded yield points between the lock sections of Group::work are drawn from the seed; the recorded history (event-sequence-stamped invoke/return/task-start/task-end) is checked: one task per flight, every caller gets the outcome of a flight of its key alive during its call, a call after the owner returned gets a new flight, nobody hangs (watchdog at quiescence). One run in three uses a multi-threaded mode: every caller is an OS thread with its own runtime under a cooperative one-thread-at-a-time scheduler that switches at the H5 points, at lock-aware points inside Call::{get_future,complete} (live only where the result lock is not held) and whenever a caller is pending; a run in which all remaining callers stay pending is a hang.",
+    "deterministic simulation of concurrent callers (single-threaded paused-clock runtime with seeded yields/sleeps at guarded points between lock sections, and a multi-threaded mode under a cooperative thread scheduler with lock-aware schedule points and runtime shutdown mid-call as a fault); history oracle over invoke/return events",
+    "Real singleflight Group; callers, arrival times, task durations, task outcomes (value/error/panic) and the scheduling decisions at five guarded yield points between the lock sections of Group::work are drawn from the seed; the recorded history (event-sequence-stamped invoke/return/task-start/task-end) is checked: one task per flight, every caller gets the outcome of a flight of its key alive during its call, a call after the owner returned gets a new flight, nobody hangs (watchdog at quiescence). One run in three uses a multi-threaded mode: every caller is an OS thread with its own runtime under a cooperative one-thread-at-a-time scheduler that switches at the H5 points, at lock-aware points inside Call::{get_future,complete} (live only where the result lock is not held) and whenever a caller is pending; a run in which all remaining callers stay pending is a hang; as a fault, one caller's runtime may be shut down while its call is pending (its owner task dropped unfinished): every other caller must still return.",
     "Trusted: tokio primitives. Interleavings are explored at lock-section granularity plus wherever a lock-aware point finds the result lock free (H5), not at atomic-instruction granularity.", "§7 C20")
 
 CACHE_NOTE = "Trusted: the file system (tmpfs), std::sync::Mutex. Interleavings are at the granularity of the H4 points (before each state-lock acquisition and file-system effect), which is the property's own granularity; one OS thread runs at a time."
@@ -50,11 +50,11 @@ CHECKS["C13"] = ("cache", "exploration",
 SHARD_NOTE = "Trusted: the independent shard parser and hash code in sim/src/refmodel.rs, blake3. Inputs (model shards, queries, histories) are seeded generation; the simulated dimensions are reader delivery (short reads, Pending), the wall clock and file mtimes (H6), and directory histories."
 CHECKS["C05"] = ("shard", "exploration",
     "deterministic simulation of shard-directory histories (add/flush/plant/consolidate/keyed re-export/re-open under a simulated clock) with a reference chunk->xorb model; reader-seam fault injection (short reads)",
-    "Every dedup answer from the real in-memory index, the on-disk shard (through a short-reading reader) and the ShardFileManager (after each step of a seeded directory history incl. keyed shards under several keys) is checked for truthfulness against the model of all xorbs ever added: 1<=n<=|query|, range width n, positions hold the queried hashes (engineered duplicate chunks and colliding 64-bit prefixes), byte count = sum of lengths; a third of the queries run over a xorb's end and continue with the hash of the record that follows in the shard. Misses are always allowed here.",
+    "Every dedup answer from the real in-memory index, the on-disk shard (through a short-reading reader) and the ShardFileManager (after each step of a seeded directory history incl. keyed shards under several keys) is checked for truthfulness against the model of all xorbs ever added: 1<=n<=|query|, range width n, positions hold the queried hashes (engineered duplicate chunks and colliding 64-bit prefixes), byte count = sum of lengths; a third of the queries run over a xorb's end and continue with the hash of the record that follows in the shard. One run in four drives the file-level deduper (FileDeduper) directly in seeded batches under small xorb limits: every index answer and every segment of the finished file record — in-xorb self-references and references across xorb cuts included — must name chunks that are the file's chunks at that point. Misses are always allowed here.",
     SHARD_NOTE, "§7 C05")
 CHECKS["C09"] = ("shard", "exploration",
     "reader-seam simulation (seeded short reads, Pending polls, fragment walker) of the seekable, minimal and streaming shard readers against the record model and an independent shard parser",
-    "Model shards up to 700 files / 60 xorbs / 3000 chunks per xorb (interpolation phase live), four key distributions incl. <=7 equal truncated prefixes, extremes and dense clusters, five flag modes, re-insertion of identical records; serialised by the real code, parsed independently (records, order, three lookup tables, totals, size estimate) and queried for every/sampled contained and absent key through readers whose delivery is drawn from the seed.",
+    "Model shards up to 700 files / 60 xorbs / 3000 chunks per xorb (interpolation phase live), four key distributions incl. <=7 equal truncated prefixes, extremes and dense clusters, five flag modes, re-insertion of identical records and replacement of a record by one of another shape (flags toggled, segments dropped or added); serialised by the real code, parsed independently (records, order, three lookup tables, totals, size estimate) and queried for every/sampled contained and absent key through readers whose delivery is drawn from the seed.",
     SHARD_NOTE, "§7 C09")
 CHECKS["C10"] = ("shard", "exploration",
     "deterministic simulation of shard-directory histories with simulated mtimes (ordered, tied, reversed) plus cursor-level set operations through short-reading readers; record-set conservation oracle",
